@@ -307,6 +307,7 @@ class World:
             cmd.append("--reset_h5")
         if revise:
             cmd.append("--revise_anno")
+        cmd += list(getattr(self, "extra_flags", []))
         rc, out, err = common.run_child(cmd, timeout=timeout, cwd=self.root, env=common.child_env())
         ops = []
         if os.path.exists(logp):
